@@ -38,7 +38,7 @@ def canon(v, np_real=None):
     return v
 
 
-D = ["int16", "int32", "int64", "float16", "float32", "float64", "float128"]
+D = ["int16", "int32", "int64", "uint16", "uint32", "uint64", "float16", "float32", "float64", "float128"]
 
 CASES = [
     "np.asarray([[1, 2, 3], [4, 5, 6]]).T",
@@ -94,6 +94,14 @@ CASES = [
     "np.asarray([30000, 30000], dtype='int16').sum(dtype='int16')",
     "np.cumsum(np.asarray([30000, 30000], dtype='int16'), dtype='int16')",
     "np.asarray([40000]).astype('int16')",
+    "np.asarray([70000, -1]).astype('uint16'), np.asarray([1.7, 2.2]).astype('uint32'), np.dtype('uint16').kind, np.dtype(np.uint32).name",
+    "(np.asarray([1, 2], dtype='uint16') + np.asarray([1, 2], dtype='int16')).dtype, (np.asarray([1], dtype='uint32') + np.asarray([1])).dtype, (np.asarray([1], dtype='uint16') * 2.5).dtype",
+    "np.asarray([65535], dtype='uint16') + np.asarray([1], dtype='uint16'), np.asarray([3], dtype='uint16') - np.asarray([5], dtype='uint16')",
+    "np.iinfo('uint16').max, np.iinfo(np.uint32).min, np.issubdtype(np.uint16, np.integer), np.issubdtype(np.uint16, int), np.issubdtype(np.uint16, np.signedinteger)",
+    "np.can_cast('int64', 'uint16', 'same_kind'), np.can_cast('uint16', 'int64', 'same_kind'), np.can_cast('uint16', 'int32'), np.can_cast('uint32', 'int32'), np.can_cast('float64', 'uint16', 'same_kind')",
+    "np.issubdtype(np.int16, int), np.issubdtype(np.int64, int), np.issubdtype(np.float32, float), np.issubdtype(np.float64, float), np.issubdtype(np.dtype('int32'), np.integer)",
+    "(np.asarray([1], dtype='uint64') + np.asarray([1])).dtype, (np.asarray([1], dtype='uint64') + np.asarray([1], dtype='uint16')).dtype, np.asarray([-1]).astype('uint64')",
+    "np.zeros(2, dtype='uint16').dtype, np.asarray([1, 2], dtype=np.uint16).sum().dtype, np.asarray([1, 2], dtype=np.uint16).cumsum().dtype",
     "np.asarray([70000.0]).astype('float16')",
     "np.asarray(5).dtype, np.asarray(5.0).dtype, np.asarray(True).dtype, np.asarray([]).dtype",
     "np.asarray([1, 2.0]).dtype, np.asarray([True, 2]).dtype",
@@ -143,6 +151,7 @@ CASES = [
 ]
 
 ERROR_CASES = [
+    "np.add(np.asarray([1, 2], dtype='uint16'), np.asarray([1, 2]), out=np.asarray([1, 2], dtype='uint16'))",
     "np.zeros((2, 2))[np.ix_(np.asarray([]), np.asarray([]))]",
     "np.empty((2.0, 2))",
     "np.zeros(3.0)",
